@@ -1,0 +1,41 @@
+//go:build verif
+
+package conf
+
+import (
+	"encoding/json"
+	"reflect"
+	"testing"
+
+	"github.com/gotid/god/internal/verifdrv"
+)
+
+type verifCase struct {
+	Shape verifdrv.Shape `json:"shape"`
+	Conf  string         `json:"conf"` // JSON text whose field keys are re-spelled (snake_case, other initial case)
+	Keys  []string       `json:"keys"`
+}
+
+// TestVerifDriver loads the re-spelled document with LoadFromJsonBytes and tabulates toCamelCase.
+func TestVerifDriver(t *testing.T) {
+	verifdrv.Run(t, func(raw json.RawMessage) any {
+		var c verifCase
+		if err := json.Unmarshal(raw, &c); err != nil {
+			return map[string]any{"error": err.Error()}
+		}
+		out := map[string]any{}
+		camel := make([]string, len(c.Keys))
+		for i, k := range c.Keys {
+			camel[i] = toCamelCase(k)
+		}
+		out["camel"] = camel
+		if c.Conf != "" {
+			var typ reflect.Type
+			if panicked, pv := verifdrv.Catch(func() { typ = c.Shape.Build() }); panicked {
+				return map[string]any{"error": "shape: " + pv}
+			}
+			out["c"] = verifdrv.RunInto(typ, func(v any) error { return LoadFromJsonBytes([]byte(c.Conf), v) })
+		}
+		return out
+	})
+}
